@@ -32,7 +32,7 @@ def run(run, tier):
     import numpy as np, networkx as nx
     rng = run.rng
     props = C.check_props('C20')
-    ok, log = C.build_driver()
+    ok, log = C.build_driver("base")
     if not ok:
         run.violation('C20/build', 'extracted model does not build: ' + log[-500:], {'log': log[-3000:]}, no_input=True)
         C.proof_coverage(run, props, 1, 0, 'build failed', [log[-300:]])
@@ -107,7 +107,7 @@ def run(run, tier):
                 nb = [G.degree(v) for v in G.neighbors(u)]
                 parts.append('%d %d %s' % (G.degree(u), len(nb), ' '.join(map(str, nb))))
             lines.append('PNK %d %s' % (G.order(), ' '.join(parts)))
-    outs = C.run_model(lines)
+    outs = C.run_model(lines, "base")
 
     # ---- run the implementation and compare -------------------------------
     stats = {'sub_ok': 0, 'sub_err': 0, 'ts': 0, 'deg': 0, 'pnk': 0, 'ties': 0, 'beyond_end': 0, 'multi_series': 0}
